@@ -345,8 +345,116 @@ func edgeDominated(d *ssa.BasicBlock, succ int, b *ssa.BasicBlock) bool {
 }
 
 // dominatingConds returns the branch conditions known to hold when control
-// reaches block b.
+// reaches block b.  A condition that is a call of a small boolean helper of the
+// module (e.g. `func (s *Service) rolloutInUse() bool { return s.rollout != nil && ... }`)
+// known to be true is expanded into the conditions that helper's true result implies,
+// so extracting a guard into a predicate method does not blind the rules.
 func dominatingConds(b *ssa.BasicBlock) []condEdge {
+	out := dominatingCondsRaw(b)
+	n := len(out)
+	for i := 0; i < n; i++ {
+		ce := out[i]
+		if call, ok := ce.cond.(*ssa.Call); ok && ce.taken {
+			if f := call.Call.StaticCallee(); f != nil && isModulePredicate(f) {
+				out = append(out, impliedWhenTrue(f, 0)...)
+			}
+		}
+	}
+	return out
+}
+
+func isModulePredicate(f *ssa.Function) bool {
+	if f.Blocks == nil || f.Pkg == nil || !strings.HasPrefix(f.Pkg.Pkg.Path(), modulePath) {
+		return false
+	}
+	res := f.Signature.Results()
+	if res.Len() != 1 || !types.Identical(res.At(0).Type(), types.Typ[types.Bool]) {
+		return false
+	}
+	n := 0
+	for _, b := range f.Blocks {
+		n += len(b.Instrs)
+	}
+	return n <= 60
+}
+
+var impliedCache = map[*ssa.Function][]condEdge{}
+
+// impliedWhenTrue: conditions that hold whenever predicate f returns true.
+func impliedWhenTrue(f *ssa.Function, depth int) []condEdge {
+	if c, ok := impliedCache[f]; ok {
+		return c
+	}
+	impliedCache[f] = nil
+	if depth > 3 {
+		return nil
+	}
+	type key struct {
+		v     ssa.Value
+		taken bool
+	}
+	var sets []map[key]condEdge
+	addSource := func(v ssa.Value, blk *ssa.BasicBlock) {
+		if b, isC := constBool(v); isC && !b {
+			return
+		}
+		m := map[key]condEdge{}
+		for _, ce := range dominatingCondsRaw(blk) {
+			m[key{ce.cond, ce.taken}] = ce
+		}
+		if _, isC := constBool(v); !isC {
+			m[key{v, true}] = condEdge{cond: v, taken: true}
+		}
+		sets = append(sets, m)
+	}
+	for _, ret := range returnsOf(f) {
+		if f.Recover != nil && ret.Block() == f.Recover {
+			continue
+		}
+		v := retVal(ret, 0)
+		if phi, ok := v.(*ssa.Phi); ok {
+			for i, e := range phi.Edges {
+				// conditions known at the END of the predecessor: those dominating it, plus its own branch towards the phi block
+				pred := phi.Block().Preds[i]
+				src := e
+				if in, ok := e.(ssa.Instruction); ok && in.Block() != nil {
+					addSource(src, in.Block())
+				} else {
+					addSource(src, pred)
+					if len(sets) > 0 {
+						if ifi, ok := pred.Instrs[len(pred.Instrs)-1].(*ssa.If); ok {
+							taken := pred.Succs[0] == phi.Block()
+							if b, isC := constBool(e); isC && b {
+								sets[len(sets)-1][key{ifi.Cond, taken}] = condEdge{cond: ifi.Cond, taken: taken}
+							}
+						}
+					}
+				}
+			}
+		} else {
+			addSource(v, ret.Block())
+		}
+	}
+	if len(sets) == 0 {
+		return nil
+	}
+	var out []condEdge
+	for k, ce := range sets[0] {
+		all := true
+		for _, m := range sets[1:] {
+			if _, ok := m[k]; !ok {
+				all = false
+			}
+		}
+		if all {
+			out = append(out, ce)
+		}
+	}
+	impliedCache[f] = out
+	return out
+}
+
+func dominatingCondsRaw(b *ssa.BasicBlock) []condEdge {
 	var out []condEdge
 	for d := b.Idom(); d != nil; d = d.Idom() {
 		if len(d.Instrs) == 0 {
